@@ -304,3 +304,21 @@ package utils
 //@ func AddXMLOperation
 //@   props C10 C20
 //@   modifies nothing
+
+// C12: the bounds of a range statement, as signed numbers. Every number an int64 can hold converts, the lowest one
+// (magnitude 2^63, what "min" stands for in the range of an int64 type) included.
+//@ func ConvertSdcpbNumberToInt64
+//@   props C12 C20
+//@   modifies nothing
+//@   ensures the_signed_number [C12]: mm != nil && r1 == nil ==> r0 == ite(mm.Negative, 0 - mm.Value, mm.Value)
+//@   ensures everything_an_int64_holds_converts [C12]: mm != nil && ite(mm.Negative, mm.Value <= 9223372036854775808, mm.Value <= 9223372036854775807) ==> r1 == nil
+//@   ensures nothing_else_does [C12]: mm != nil && !ite(mm.Negative, mm.Value <= 9223372036854775808, mm.Value <= 9223372036854775807) ==> r1 != nil
+
+// C12: text of a string leaf from a device or an XML document: the length statement is checked against the number of
+// characters of the value
+//@ func ConvertString
+//@   props C12 C20
+//@   internal length_counts_characters [C12]: called(convertUint) ==> callarg(convertUint, 0, 0) == callres(Itoa, 0) && callarg(Itoa, 0, 0) == callres(RuneCountInString, 0) &&
+//@            callarg(RuneCountInString, 0, 0) == value && callarg(convertUint, 0, 1) == lst.Length
+//@   internal restricted_strings_are_measured [C12]: lst != nil && len(lst.Length) != 0 ==> called(convertUint)
+//@   loop 0 invariant true
